@@ -3,18 +3,19 @@
 
    Printers: ttconv/imsc/attributes.py to_time_format (ClockTime / math.ceil frames / SmpteTimeCode, through
    Model/TimeCode.v of C12), FrameRateAttribute.set, the document-parameter setters; ttconv/imsc/style_properties.py
-   StyleProperties.*.from_model, to_ttml_length (Python's format(x, "g") on a rational: 6 significant digits,
-   round-half-even, trailing zeros stripped, exponent form when the decimal exponent is < -4 or >= 6), to_ttml_color,
-   the enumerations' .value.
-   Parsers: imsc/utils.py parse_length (regex ^((?:\+|\-)?\d*(?:\.\d+)?)(px|em|c|%|rh|rw)$ then float()),
-   parse_position, ttconv/utils.py parse_color, StyleProperties.*.extract.
+   StyleProperties.*.from_model, imsc/utils.py to_ttml_number (Python's format(x, "g") on a rational: 6 significant digits,
+   round-half-even, trailing zeros stripped, exponent form when the decimal exponent is < -4 or >= 6 - then decimal.Decimal's
+   "f" formatting, which writes the same digits without exponent), to_ttml_length, to_ttml_color, the enumerations' .value.
+   Parsers: imsc/utils.py parse_length (regex ^((?:\+|\-)?\d*(?:\.\d+)?)(px|em|c|%|rh|rw)\Z, ASCII digits, then float()),
+   parse_position, ttconv/utils.py parse_color, StyleProperties.*.extract; float() on the fragment [sign] digits [point digits]
+   (tts:opacity, tts:luminanceGain).
 
    Numbers are Q: a float written by the code is the rational it denotes, a float read by the code is the decimal
    it was read from (the harness converts with repr, exact for the <= 15 significant digits that occur).
    Outcomes of a printer: an attribute string, nothing (transparent tts:backgroundColor is not written), or a Python
    exception.  A parser returns None where the code raises ValueError / KeyError (logged, attribute ignored).
-   Not transcribed: Python's repr of floats (tts:opacity, tts:shear, tts:luminanceGain given as floats) and
-   parse_font_families (a regular expression with look-behind); both are compared through the round trip only. *)
+   Not transcribed: parse_font_families (a regular expression with look-behind), compared through the round trip only; float()
+   outside the fragment above (exponents, inf, nan, underscores, surrounding white space). *)
 From TT Require Import Base.Prelude Base.ImscXml Model.ImscTime Model.TimeCode Gen.ImscTables.
 From Coq Require Import QArith Qminmax Qabs.
 Local Open Scope Z_scope.
@@ -85,6 +86,16 @@ Definition format_g_parts (neg : bool) (sig ex : Z) : text :=
     sign ++ print_nat I ++ (match fr with [] => [] | _ => 46 :: dchars fr end).
 
 Definition format_g (x : Q) : text := let '(neg, sig, ex) := round6_parts x in format_g_parts neg sig ex.
+
+(* to_ttml_number: f"{Decimal(f'{value:g}'):f}" - the digits of format(x, "g") written without exponent:
+   integer part and fraction digits (trailing zeros stripped) of sig * 10^ex *)
+Definition fixed_parts (sig ex : Z) : Z * list Z :=
+  if 0 <? ex then (sig * pow10z (Z.to_nat ex), [])
+  else let p := Z.to_nat (- ex) in (sig / pow10z p, rstrip0 (frac_digits p (sig mod pow10z p))).
+Definition print_fixed (neg : bool) (ipart : Z) (fr : list Z) : text :=
+  (if neg then [45] else []) ++ print_nat ipart ++ (match fr with [] => [] | _ :: _ => 46 :: dchars fr end).
+Definition print_num (x : Q) : text :=
+  let '(neg, sig, ex) := round6_parts x in let '(ipart, fr) := fixed_parts sig ex in print_fixed neg ipart fr.
 (* the value that is written *)
 Definition round6 (x : Q) : Q :=
   let '(neg, sig, ex) := round6_parts x in
@@ -106,8 +117,8 @@ Fixpoint enum_by_value (tbl : list (list Z * Z * list Z)) (v : text) : option Z 
 
 Definition unit_text (u : Z) : text := match enum_value enum_LengthUnits u with Some t => t | None => [] end.
 
-(* to_ttml_length: f"{value:g}{units.value}" *)
-Definition print_len (l : len) : text := format_g (l_val l) ++ unit_text (l_unit l).
+(* to_ttml_length: f"{to_ttml_number(value)}{units.value}" *)
+Definition print_len (l : len) : text := print_num (l_val l) ++ unit_text (l_unit l).
 
 (* the unit alternatives of _LENGTH_RE, in the order of the pattern *)
 Definition length_units : list text := [[112; 120]; [101; 109]; [99]; [37]; [114; 104]; [114; 119]].
@@ -149,6 +160,26 @@ Definition parse_len (s : text) : option len :=
           | None => None
           end
       end
+  end.
+
+(* float(s) on the fragment  [sign] digits [point [digits]]  or  [sign] point digits  (what to_ttml_number writes is inside it); None = ValueError
+   (outside the fragment the code may still accept: exponents, inf, nan, underscores, white space - not transcribed) *)
+Definition parse_float (s : text) : option Q :=
+  let '(neg, r0) := split_sign s in
+  let '(ip, r1) := span_digits r0 in
+  match r1 with
+  | [] => match ip with [] => None | _ :: _ => let v := dec_value ip [] in Some (if neg then (- v)%Q else v) end
+  | c :: r2 =>
+      if c =? 46 then
+        let '(fp, r3) := span_digits r2 in
+        match r3 with
+        | [] => match ip, fp with
+                | [], [] => None
+                | _, _ => let v := dec_value ip fp in Some (if neg then (- v)%Q else v)
+                end
+        | _ :: _ => None
+        end
+      else None
   end.
 
 (* ---- colours -------------------------------------------------------------------------------------------------- *)
@@ -271,9 +302,12 @@ Definition transparent : color := (0, 0, 0, 0).
 Definition color_eqb (a b : color) : bool :=
   let '(r, g, b1, a1) := a in let '(r', g', b', a') := b in (r =? r') && (g =? g') && (b1 =? b') && (a1 =? a').
 
-(* serialize_font_family *)
+(* serialize_font_family: the backslash and the double quote are escaped *)
 Fixpoint escape_quotes (s : text) : text :=
-  match s with [] => [] | c :: s' => if c =? 34 then 92 :: 34 :: escape_quotes s' else c :: escape_quotes s' end.
+  match s with
+  | [] => []
+  | c :: s' => if (c =? 34) || (c =? 92) then 92 :: c :: escape_quotes s' else c :: escape_quotes s'
+  end.
 Definition print_family (f : bool * text) : text := if fst f then snd f else 34 :: escape_quotes (snd f) ++ [34].
 
 (* StyleProperties.<p>.from_model(value) *)
@@ -288,9 +322,7 @@ Definition print_style (p : Z) (v : sval) : wres :=
                end
   | SLen l => WAttr (print_len l)
   | SNormal => if p =? P_LineHeight then WAttr T_normal else WErr 3
-  | SNone =>
-      (* TextOutline, RubyReserve and TextShadow print "none"; TextEmphasis.from_model reads .style of the special value *)
-      if p =? P_TextEmphasis then WErr 3 else WAttr T_none
+  | SNone => WAttr T_none                 (* TextOutline, RubyReserve, TextShadow, TextEmphasis *)
   | SExtent w h => WAttr (print_len w ++ sp ++ print_len h)
   | SOrigin x y => WAttr (print_len x ++ sp ++ print_len y)
   | SPadding b e a s => WAttr (print_len b ++ sp ++ print_len e ++ sp ++ print_len a ++ sp ++ print_len s)
@@ -300,16 +332,18 @@ Definition print_style (p : Z) (v : sval) : wres :=
       | _, _ => WErr 4
       end
   | SBool b => WAttr (if b then T_true else T_false)
-  | SInt n => if p =? P_Shear then WAttr (print_int n ++ [37]) else WAttr (print_int n)
-  | SFrac q =>
-      (* f"{value}" of a Fraction: numerator/denominator *)
-      let s := print_int (Qnum q) ++ [47] ++ print_nat (Zpos (Qden q)) in
-      if p =? P_Shear then WAttr (s ++ [37]) else WAttr s
+  (* tts:opacity, tts:luminanceGain, tts:shear: to_ttml_number (and "%" for shear) *)
+  | SInt n => if p =? P_Shear then WAttr (print_num (inject_Z n) ++ [37]) else WAttr (print_num (inject_Z n))
+  | SFrac q => if p =? P_Shear then WAttr (print_num q ++ [37]) else WAttr (print_num q)
   | STextDec u l o =>
       let tok (x : option bool) (yes no : text) : list text := match x with Some true => [yes] | Some false => [no] | None => [] end in
-      WAttr (join_with sp (tok u [117;110;100;101;114;108;105;110;101] [110;111;85;110;100;101;114;108;105;110;101]
-                           ++ tok l [108;105;110;101;84;104;114;111;117;103;104] [110;111;76;105;110;101;84;104;114;111;117;103;104]
-                           ++ tok o [111;118;101;114;108;105;110;101] [110;111;79;118;101;114;108;105;110;101]))
+      (* a value without any component is not written *)
+      match tok u [117;110;100;101;114;108;105;110;101] [110;111;85;110;100;101;114;108;105;110;101]
+            ++ tok l [108;105;110;101;84;104;114;111;117;103;104] [110;111;76;105;110;101;84;104;114;111;117;103;104]
+            ++ tok o [111;118;101;114;108;105;110;101] [110;111;79;118;101;114;108;105;110;101] with
+      | [] => WSkip
+      | ts => WAttr (join_with sp ts)
+      end
   | SEmph st c pos =>
       match enum_value enum_TextEmphasisStyle st, enum_value enum_TextEmphasisPosition pos with
       | Some ss, Some ps => WAttr (join_with sp ([ss] ++ print_ocolor c ++ [ps]))
@@ -325,19 +359,19 @@ Definition print_style (p : Z) (v : sval) : wres :=
   | SFonts fs => WAttr (join_with [44; 32] (List.map print_family fs))
   end.
 
-(* has_px of the property classes; None = AttributeError on SpecialValues.none *)
+(* has_px of the property classes *)
 Definition is_px (l : len) : bool := l_unit l =? U_px.
-Definition has_px (p : Z) (v : sval) : option bool :=
+Definition has_px (p : Z) (v : sval) : bool :=
   match v with
-  | SLen l => Some (if (p =? P_LinePadding) then false else is_px l)
-  | SExtent w h => Some (is_px h || is_px w)
-  | SOrigin x y => Some (is_px x || is_px y)
-  | SPadding b e a s => Some (is_px a || is_px b || is_px s || is_px e)
-  | SOutline _ th => Some (is_px th)
-  | SReserve _ l => Some (match l with Some x => is_px x | None => false end)
-  | SShadows l => Some (existsb (fun s => let '(x, y, blur, _) := s in is_px x || is_px y || match blur with Some b => is_px b | None => false end) l)
-  | SNone => if (p =? P_RubyReserve) || (p =? P_TextShadow) then None else Some false
-  | _ => Some false
+  | SLen l => if (p =? P_LinePadding) then false else is_px l
+  | SExtent w h => is_px h || is_px w
+  | SOrigin x y => is_px x || is_px y
+  | SPadding b e a s => is_px a || is_px b || is_px s || is_px e
+  | SPosition _ ho _ vo => is_px ho || is_px vo
+  | SOutline _ th => is_px th
+  | SReserve _ l => match l with Some x => is_px x | None => false end
+  | SShadows l => existsb (fun s => let '(x, y, blur, _) := s in is_px x || is_px y || match blur with Some b => is_px b | None => false end) l
+  | _ => false
   end.
 
 (* ---- StyleProperties.<p>.extract(attribute string) ------------------------------------------------------------------ *)
@@ -419,6 +453,7 @@ Fixpoint pos34 (items : list text) (st : pstate) : option pstate :=
 Definition parse_position (s : text) : option sval :=
   let items := split_ws s [] in
   let n := Z.of_nat (length items) in
+  if n =? 0 then None else                 (* "Empty tts:position value" *)
   match (if (n =? 1) || (n =? 2) then pos12 items (None, None, None, None) else pos34 items (None, None, None, None)) with
   | None => None
   | Some (he, ho, ve, vo) =>
@@ -436,7 +471,7 @@ Definition parse_position (s : text) : option sval :=
   end.
 
 Definition parse_shadow (s : text) : option (len * len * option len * option color) :=
-  let cs := split_on 32 s [] in
+  let cs := split_ws s [] in               (* shadow.split() *)
   match cs with
   | [x; y] => omap2 (fun a b => (a, b, None, None)) (parse_len x) (parse_len y)
   | [x; y; z] =>
@@ -481,6 +516,11 @@ Fixpoint emph_fold (cs : list text) (ss sy : option text) (c : option color) (po
            end
   end.
 
+Definition decoration_tokens : list text :=
+  [[117;110;100;101;114;108;105;110;101]; [110;111;85;110;100;101;114;108;105;110;101];
+   [108;105;110;101;84;104;114;111;117;103;104]; [110;111;76;105;110;101;84;104;114;111;117;103;104];
+   [111;118;101;114;108;105;110;101]; [110;111;79;118;101;114;108;105;110;101]].
+
 Definition extract_style (p : Z) (s : text) : option sval :=
   if (p =? P_BackgroundColor) || (p =? P_Color) then
     match parse_color s with Some c => Some (SColor c) | None => None end
@@ -521,15 +561,19 @@ Definition extract_style (p : Z) (s : text) : option sval :=
                 else None
     | None => None
     end
-  else if p =? P_FillLineGap then Some (SBool (text_eqb s T_true))
+  else if p =? P_FillLineGap then
+    if text_eqb s T_true then Some (SBool true) else if text_eqb s T_false then Some (SBool false) else None
   else if p =? P_TextDecoration then
     if text_eqb s T_none then Some (STextDec (Some false) (Some false) (Some false))
     else
       let ts := split_on 32 s [] in
       let pick (yes no : text) : option bool := if mem_tok yes ts then Some true else if mem_tok no ts then Some false else None in
+      if negb (forallb (fun t => mem_tok t decoration_tokens) ts) then None else
       Some (STextDec (pick [117;110;100;101;114;108;105;110;101] [110;111;85;110;100;101;114;108;105;110;101])
                      (pick [108;105;110;101;84;104;114;111;117;103;104] [110;111;76;105;110;101;84;104;114;111;117;103;104])
                      (pick [111;118;101;114;108;105;110;101] [110;111;79;118;101;114;108;105;110;101]))
+  else if (p =? P_Opacity) || (p =? P_LuminanceGain) then
+    match parse_float s with Some v => Some (SFrac v) | None => None end
   else if p =? P_TextOutline then
     if text_eqb s T_none then Some SNone
     else match split_on 32 s [] with
@@ -614,4 +658,4 @@ Definition to_time_format (syn : tsyntax) (fps : option Q) (t : Q) : option text
 Definition print_frame_rate (fps : Q) : text * option text :=
   let r := round_he (Qnum fps) (Zpos (Qden fps)) in
   let m := Qred (fps / inject_Z r) in
-  (print_int r, if Qeq_bool m 1 then None else Some (format_g (inject_Z (Qnum m)) ++ sp ++ format_g (inject_Z (Zpos (Qden m))))).
+  (print_int r, if Qeq_bool m 1 then None else Some (print_int (Qnum m) ++ sp ++ print_int (Zpos (Qden m)))).
